@@ -287,6 +287,38 @@ class C20(core.Check):
                 res.fail(**{'class': 'store/' + bad[0], 'input': {'sequence': seq}, 'observed': bad[1]})
             elif len(res.samples) < 3:
                 res.sample({'sequence_ts': [c[0] // M for c in seq], 'stored_ts': [int(x) // M for x in tss] if seq else []})
+        # the same rules through the warm-up path: `inject_warmup_candles_to_store` hands a whole series to the store at
+        # once — a repeated minute must replace the stored one, an older minute sent again must update in place, the stored
+        # series stays strictly increasing with one candle per minute
+        from jesse.services.candle import inject_warmup_candles_to_store
+        for _ in range(self.budget(60, 1500, boost)):
+            seq = [c for c in self.add_sequence(r.randint(2, 30)) if c[0] != 0]
+            if not seq:
+                continue
+            store.candles.init_storage(50)
+            try:
+                inject_warmup_candles_to_store(np.array(seq, dtype=float), 'Sandbox', 'BTC-USDT')
+            except Exception as e:  # noqa
+                res.count('warmup-inject:raises:' + type(e).__name__)
+                continue
+            arr = store.candles.get_storage('Sandbox', 'BTC-USDT', '1m')
+            after = [list(map(float, x)) for x in arr[:]] if len(arr) else []
+            tss = [x[0] for x in after]
+            # the list model of the same sequence
+            model = []
+            for c in seq:
+                cf = list(map(float, c))
+                if not model or cf[0] > model[-1][0]:
+                    model.append(cf)
+                elif cf[0] in [x[0] for x in model]:
+                    model = [cf if x[0] == cf[0] else x for x in model]
+            res.seen(('warm', tuple(map(tuple, seq))), any(c[0] in [x[0] for x in seq[:i]] for i, c in enumerate(seq)))
+            res.count('warmup-inject')
+            if any(a >= b for a, b in zip(tss, tss[1:])):
+                res.fail(**{'class': 'store/warmup-not-increasing', 'input': {'sequence': seq}, 'observed': tss})
+            elif after != model:
+                res.fail(**{'class': 'store/warmup-series-differs', 'input': {'sequence': seq},
+                            'observed': [int(x) // M for x in tss], 'expected': [int(x[0]) // M for x in model]})
         # spacing
         for d in (2 * M, 0, -M, 59_999, 5 * M):
             cs = [[10 * M, 1, 1, 1, 1, 1], [10 * M + d, 1, 1, 1, 1, 1], [10 * M + d + M, 1, 1, 1, 1, 1]]
